@@ -162,6 +162,29 @@ CLAIMS = {
              "Excluded: multi-result functions (property), va_*, jcall/jret, laddr/jmpi, property insns, lref.  mul/div/mod, fmul/fdiv and double/long "
              "double arithmetic on constant grids; long double = binary128 on both legs; C-level UB of the emitted C evaluated as -fwrapv.",
         technique=TECH + "; emitted C compiled by goto-cc and compared with the real interpreter"),
+    "C15": dict(
+        level="model_checking", design="DESIGN.md section 3, C15 and section 8",
+        text="Bounded model checking of the real MIR_new_insn_arr + MIR_append_insn + MIR_finish_func (+ MIR_insn_op_mode, find_rd_by_reg, "
+             "create_func_reg) with one obligation per opcode (list read from insn_descs at run time): operand count and the KIND of every operand "
+             "position are symbolic; the harness' noreturn error callback asserts that an error was expected (and, where documented, which "
+             "MIR_error_type), normal return asserts that none was.  Oracle ref/mir_modes_ref.h is written by instruction family from MIR.md / mir.h "
+             "comments, not from insn_descs.  Register declaration errors as separate obligations.",
+        note="Quick: 9 operand kinds per position, documented arity (window for ret/call/switch); thorough: 16 kinds, 0..6 operands.  State constructed "
+             "directly (not through the API); HTAB replaced by its abstract-map model (justified by C19).  KNOWN FINDING: documented undef-type "
+             "va_list memory is rejected (4 obligations).  NOT covered: overflow-branch adjacency 'separated only by register moves' (CBMC limits), "
+             "message texts, the MIR_new_insn varargs wrapper.  Doc ambiguities followed the code and are listed in the evidence.",
+        technique=TECH + "; exhaustive over opcodes, symbolic over the operand-kind space"),
+    "C16": dict(
+        level="model_checking", design="DESIGN.md section 3, C16 and section 8",
+        text="Bounded model checking of the copy/restore protocol that makes generation non-destructive: the real _MIR_duplicate_func_insns, "
+             "store_labels_for_duplication, redirect_duplicated_labels, _MIR_restore_func_insns and temp-register creation/removal on a function of "
+             "symbolic shape (labels, branches, switch, laddr, lref items), with the generator modelled as an ARBITRARY sequence of edits of the working "
+             "list and temp-register requests between duplicate and restore: afterwards the insn list is the original nodes in order with identical "
+             "contents, lref labels are the originals, vars/registers are restored, and a second cycle behaves identically.",
+        note="NOT proved: that no generator pass writes through a pointer into original_insns (whole-generator frame condition); the already-generated "
+             "path of generate_func_code (mir-gen.c) is not encoded.  <= 3 (quick) / 5 (thorough) insns, <= 2/3 generator edits and temps per cycle, "
+             "2 cycles, <= 2 lref items.  State constructed directly; HTAB model.",
+        technique=TECH),
 }
 
 NOT_APPLICABLE = {
